@@ -326,6 +326,6 @@ def finish(acc, tier, seed):
         reasons.append("quiescence monitor never reached")
     if acc.counters.get("observed_thread_switches", 0) < 100:
         reasons.append("too few observed thread switches in the yield-injection run")
-    if acc.counters.get("histories", 0) < (20 if tier == "quick" else 200):
+    if acc.counters.get("histories", 0) < (14 if tier == "quick" else 120):
         reasons.append("too few histories")
     return reasons
